@@ -279,6 +279,10 @@ func (rc *rootCtx) callRoots(c *ssa.Call) []root {
 		if fn.Blocks == nil || !inModule(funcPkgPath(fn)) {
 			return []root{{kind: rkOpaque, v: c}}
 		}
+		// a recursive clone returns memory of its own (what it hands back uncloned are scalars and nil containers)
+		if isDeepCloneFn(fn) {
+			return []root{{kind: rkLocal, v: c}}
+		}
 		// module callee: substitute actuals into the roots of its returned values
 		return rc.moduleCallRoots(c, fn)
 	default:
